@@ -12,7 +12,7 @@
 //!   * errors are `err <code> <hex message>`.
 //!
 //! Case grammar (tokens; optional names are `-` or `x<hex>`):
-//!   case   := inc <0|1> chosen (none | <k> name*k) regs <n> reg*n streams <s> stream*s
+//!   case   := <kind label> inc <0|1> chosen (none | <k> name*k) regs <n> reg*n streams <s> stream*s
 //!             [own <file> <file>]                      -- v1 then v1alpha own descriptor, iff inc=1
 //!   reg    := S <k> file*k | E <k> file*k | B <hex>
 //!   file   := F <name?> <pkg?> <extra> <k> msg*k <k> enum*k <k> svc*k
@@ -349,6 +349,10 @@ impl<'a> P<'a> {
 
 fn parse_case(s: &str) -> Option<Case> {
     let mut p = P { t: s.split(' ').filter(|x| !x.is_empty()).collect(), i: 0 };
+    // leading label (`corpus`, `structured`, …): only for the evidence statistics
+    if p.t.first().map_or(false, |t| *t != "inc") {
+        p.i = 1;
+    }
     p.case()
 }
 
@@ -390,10 +394,34 @@ fn msg_proto(m: &Msg) -> DescriptorProto {
 /// Deterministic and injective on `FileD`: everything the model does not look at is a function
 /// of `extra`.
 fn file_proto(f: &FileD) -> FileDescriptorProto {
+    let x = f.extra;
     FileDescriptorProto {
         name: f.name.clone(),
         package: f.package.clone(),
-        dependency: if f.extra == 0 { vec![] } else { vec![format!("dep{}.proto", f.extra)] },
+        dependency: if x == 0 { vec![] } else { vec![format!("dep{}.proto", x)] },
+        public_dependency: if x % 2 == 1 { vec![0] } else { vec![] },
+        syntax: match x % 3 {
+            0 => None,
+            1 => Some("proto3".into()),
+            _ => Some("proto2".into()),
+        },
+        options: if x >= 2 {
+            Some(prost_types::FileOptions { java_package: Some(format!("com.example.x{}", x)), deprecated: Some(true), ..Default::default() })
+        } else {
+            None
+        },
+        source_code_info: if x >= 3 {
+            Some(prost_types::SourceCodeInfo {
+                location: vec![prost_types::source_code_info::Location {
+                    path: vec![4, 0],
+                    span: vec![1, 2, 3],
+                    leading_comments: Some("// é comment".into()),
+                    ..Default::default()
+                }],
+            })
+        } else {
+            None
+        },
         message_type: f.msgs.iter().map(msg_proto).collect(),
         enum_type: f.enums.iter().map(enum_proto).collect(),
         service: f
@@ -706,7 +734,7 @@ impl<'a> G<'a> {
         FileD {
             name,
             package,
-            extra: *self.rng.pick(&[0u64, 0, 0, 1, 2]),
+            extra: *self.rng.pick(&[0u64, 0, 0, 1, 2, 3, 4]),
             msgs: (0..nm).map(|_| self.msg(depth)).collect(),
             enums: (0..ne).map(|_| self.enumd()).collect(),
             svcs: (0..ns).map(|_| Svc { name: self.ident(), methods: self.names(3) }).collect(),
@@ -933,13 +961,13 @@ fn all_files(regs: &[Reg]) -> Vec<&FileD> {
     v
 }
 
-fn finish(rng: &mut Rng, inc: bool, chosen: Option<Vec<String>>, regs: Vec<Reg>, dense: bool) -> String {
+fn finish(kind: &str, rng: &mut Rng, inc: bool, chosen: Option<Vec<String>>, regs: Vec<Reg>, dense: bool) -> String {
     let own = if inc { Some(own_files()) } else { None };
     let streams = {
         let files = all_files(&regs);
         streams_for(rng, &files, own.as_ref(), dense)
     };
-    render_case(&Case { inc, chosen, regs, streams, own })
+    format!("{} {}", kind, render_case(&Case { inc, chosen, regs, streams, own }))
 }
 
 fn undecodable(rng: &mut Rng) -> Vec<u8> {
@@ -999,33 +1027,33 @@ fn corpus(rng: &mut Rng) -> Vec<String> {
     let f1_nopkg = fl("b.proto", None, 0, vec![deep.clone()], vec![en("FileEnum", &["X"])], vec![sv("Svc", &["Get"])]);
     let f1_emptypkg = fl("c.proto", Some(""), 1, vec![m("M", vec![], vec![], &["f"], &[])], vec![], vec![sv("S2", &[])]);
     // 1. tonic's own three test symbols' shape: only the own descriptor
-    out.push(finish(rng, true, None, vec![], true));
+    out.push(finish("corpus", rng, true, None, vec![], true));
     // 2. depth-4 nesting, package present / absent / empty
-    out.push(finish(rng, false, None, vec![Reg::S(vec![f1.clone()])], true));
-    out.push(finish(rng, false, None, vec![Reg::E(vec![f1_nopkg.clone()])], true));
-    out.push(finish(rng, true, None, vec![Reg::E(vec![f1.clone(), f1_nopkg.clone(), f1_emptypkg.clone()])], true));
+    out.push(finish("corpus", rng, false, None, vec![Reg::S(vec![f1.clone()])], true));
+    out.push(finish("corpus", rng, false, None, vec![Reg::E(vec![f1_nopkg.clone()])], true));
+    out.push(finish("corpus", rng, true, None, vec![Reg::E(vec![f1.clone(), f1_nopkg.clone(), f1_emptypkg.clone()])], true));
     // 3. duplicate registration: identical file twice (same set, two sets, decoded + encoded)
-    out.push(finish(rng, false, None, vec![Reg::S(vec![f1.clone(), f1.clone()])], false));
-    out.push(finish(rng, false, None, vec![Reg::E(vec![f1.clone()]), Reg::S(vec![f1.clone()])], false));
+    out.push(finish("corpus", rng, false, None, vec![Reg::S(vec![f1.clone(), f1.clone()])], false));
+    out.push(finish("corpus", rng, false, None, vec![Reg::E(vec![f1.clone()]), Reg::S(vec![f1.clone()])], false));
     // 4. same file name, different content: encoded registered first, decoded second (the builder
     //    processes decoded sets first)
     let f1b = fl("a.proto", Some("other"), 0, vec![m("Only", vec![], vec![], &["z"], &[])], vec![], vec![sv("OtherSvc", &["M"])]);
-    out.push(finish(rng, false, None, vec![Reg::E(vec![f1.clone()]), Reg::S(vec![f1b.clone()])], true));
-    out.push(finish(rng, false, None, vec![Reg::S(vec![f1.clone()]), Reg::S(vec![f1b.clone()])], true));
-    out.push(finish(rng, false, None, vec![Reg::E(vec![f1b.clone(), f1.clone()])], true));
+    out.push(finish("corpus", rng, false, None, vec![Reg::E(vec![f1.clone()]), Reg::S(vec![f1b.clone()])], true));
+    out.push(finish("corpus", rng, false, None, vec![Reg::S(vec![f1.clone()]), Reg::S(vec![f1b.clone()])], true));
+    out.push(finish("corpus", rng, false, None, vec![Reg::E(vec![f1b.clone(), f1.clone()])], true));
     // 5. same symbol in two different files (last processed wins)
     let g1 = fl("x.proto", Some("p"), 0, vec![m("M", vec![], vec![], &["f"], &[])], vec![], vec![sv("S", &["m"])]);
     let g2 = fl("y.proto", Some("p"), 0, vec![m("M", vec![], vec![], &["g"], &[])], vec![], vec![sv("S", &["n"])]);
-    out.push(finish(rng, false, None, vec![Reg::S(vec![g1.clone(), g2.clone()])], true));
-    out.push(finish(rng, false, None, vec![Reg::E(vec![g1.clone()]), Reg::S(vec![g2.clone()])], true));
+    out.push(finish("corpus", rng, false, None, vec![Reg::S(vec![g1.clone(), g2.clone()])], true));
+    out.push(finish("corpus", rng, false, None, vec![Reg::E(vec![g1.clone()]), Reg::S(vec![g2.clone()])], true));
     // 6. dotted names that collide with nesting: message "A.B" vs message A { message B }
     let h1 = fl("h1.proto", None, 0, vec![m("A.B", vec![], vec![], &["f"], &[])], vec![], vec![]);
     let h2 = fl("h2.proto", Some("A"), 0, vec![m("B", vec![], vec![], &["g"], &[])], vec![], vec![]);
-    out.push(finish(rng, false, None, vec![Reg::S(vec![h1, h2])], true));
+    out.push(finish("corpus", rng, false, None, vec![Reg::S(vec![h1, h2])], true));
     // 7. explicitly chosen services (existing, unknown, repeated) vs declared
     for chosen in [vec!["pkg.sub.Svc".to_string()], vec!["nope".into(), "nope".into()], vec!["pkg.sub.Svc".into(), "S2".into(), "pkg.sub.Svc".into()]] {
-        out.push(finish(rng, true, Some(chosen.clone()), vec![Reg::S(vec![f1.clone(), f1_emptypkg.clone()])], false));
-        out.push(finish(rng, false, Some(chosen), vec![Reg::E(vec![f1.clone()])], false));
+        out.push(finish("corpus", rng, true, Some(chosen.clone()), vec![Reg::S(vec![f1.clone(), f1_emptypkg.clone()])], false));
+        out.push(finish("corpus", rng, false, Some(chosen), vec![Reg::E(vec![f1.clone()])], false));
     }
     // 8. missing names at every kind of position
     let mut miss: Vec<FileD> = Vec::new();
@@ -1041,31 +1069,31 @@ fn corpus(rng: &mut Rng) -> Vec<String> {
     let mut x = f1.clone(); x.svcs[0].name = None; miss.push(x);
     let mut x = f1.clone(); x.svcs[0].methods[1] = None; miss.push(x);
     for x in miss {
-        out.push(finish(rng, false, None, vec![Reg::S(vec![x.clone()])], false));
+        out.push(finish("corpus", rng, false, None, vec![Reg::S(vec![x.clone()])], false));
         // a skipped duplicate is not examined at all: the bad file hides behind a good one
         let mut y = x.clone();
         if y.name.is_some() {
-            out.push(finish(rng, false, None, vec![Reg::S(vec![f1.clone(), y.clone()])], false));
+            out.push(finish("corpus", rng, false, None, vec![Reg::S(vec![f1.clone(), y.clone()])], false));
             y.name = Some("z.proto".into());
-            out.push(finish(rng, true, None, vec![Reg::S(vec![f1.clone()]), Reg::E(vec![y])], false));
+            out.push(finish("corpus", rng, true, None, vec![Reg::S(vec![f1.clone()]), Reg::E(vec![y])], false));
         }
     }
     // 9. undecodable bytes: alone, after good sets, before a set with a missing name
-    out.push(finish(rng, false, None, vec![Reg::B(vec![0x0a, 0x05, 0x01])], false));
-    out.push(finish(rng, true, None, vec![Reg::S(vec![f1.clone()]), Reg::B(vec![0x0a])], false));
+    out.push(finish("corpus", rng, false, None, vec![Reg::B(vec![0x0a, 0x05, 0x01])], false));
+    out.push(finish("corpus", rng, true, None, vec![Reg::S(vec![f1.clone()]), Reg::B(vec![0x0a])], false));
     let mut noname = f1.clone(); noname.name = None;
-    out.push(finish(rng, false, None, vec![Reg::S(vec![noname]), Reg::B(vec![0x0b, 0x00])], false));
+    out.push(finish("corpus", rng, false, None, vec![Reg::S(vec![noname]), Reg::B(vec![0x0b, 0x00])], false));
     // 10. a user file that takes the own descriptor's file name (own descriptor is then skipped)
     let squat = fl("reflection_v1.proto", Some("grpc.reflection.v1"), 0, vec![m("ServerReflectionRequest", vec![], vec![], &["host"], &[])], vec![], vec![]);
-    out.push(finish(rng, true, None, vec![Reg::S(vec![squat])], true));
+    out.push(finish("corpus", rng, true, None, vec![Reg::S(vec![squat])], true));
     // 11. empty everything
-    out.push(finish(rng, false, None, vec![], false));
-    out.push(finish(rng, false, None, vec![Reg::S(vec![]), Reg::E(vec![])], false));
-    out.push(finish(rng, false, None, vec![Reg::S(vec![fl("", Some(""), 0, vec![m("", vec![m("", vec![], vec![], &[""], &[""])], vec![en("", &[""])], &[], &[])], vec![], vec![sv("", &[""])])])], true));
+    out.push(finish("corpus", rng, false, None, vec![], false));
+    out.push(finish("corpus", rng, false, None, vec![Reg::S(vec![]), Reg::E(vec![])], false));
+    out.push(finish("corpus", rng, false, None, vec![Reg::S(vec![fl("", Some(""), 0, vec![m("", vec![m("", vec![], vec![], &[""], &[""])], vec![en("", &[""])], &[], &[])], vec![], vec![sv("", &[""])])])], true));
     out
 }
 
-fn random_case(rng: &mut Rng, p_missing: u64, p_bad: u64, dense: bool) -> String {
+fn random_case(kind: &str, rng: &mut Rng, p_missing: u64, p_bad: u64, dense: bool) -> String {
     let mut pool: Vec<FileD> = Vec::new();
     let nregs = *rng.pick(&[0usize, 1, 1, 2, 2, 3, 4]);
     let mut regs = Vec::new();
@@ -1123,26 +1151,94 @@ fn random_case(rng: &mut Rng, p_missing: u64, p_bad: u64, dense: bool) -> String
     } else {
         None
     };
-    finish(rng, inc, chosen, regs, dense)
+    finish(kind, rng, inc, chosen, regs, dense)
+}
+
+/// Small-scope exhaustive tier: every sequence of up to three registrations (decoded or encoded,
+/// one file each) over a catalogue of file shapes chosen to collide in every way the index can
+/// confuse: same file name / same symbols / dotted names / package = message name / identical
+/// duplicates.  Queries: every name any catalogue file declares, every file name, near misses.
+fn exhaustive() -> Vec<String> {
+    let cat: Vec<FileD> = vec![
+        fl("a.proto", Some("p"), 0, vec![m("M", vec![m("N", vec![], vec![en("E", &["V"])], &["f"], &[])], vec![], &["f"], &["o"])], vec![], vec![sv("S", &["m"])]),
+        // same name as #0, other content
+        fl("a.proto", Some("p"), 0, vec![m("M", vec![], vec![], &["g"], &[])], vec![en("E", &["V"])], vec![sv("T", &["m"])]),
+        // other name, overlapping symbols with #0
+        fl("b.proto", Some("p"), 0, vec![m("M", vec![], vec![], &["f", "h"], &[])], vec![], vec![sv("S", &["n"])]),
+        // no package; dotted message name colliding with #0's nesting
+        fl("c.proto", None, 0, vec![m("p.M", vec![m("N", vec![], vec![], &[], &[])], vec![], &["f"], &[])], vec![en("p", &["M"])], vec![]),
+        // package equal to a full message name of #0
+        fl("d.proto", Some("p.M"), 1, vec![m("N", vec![], vec![], &["E"], &["f"])], vec![en("o", &[])], vec![sv("N", &["E"])]),
+        // same as #2 except for content the index does not read
+        fl("b.proto", Some("p"), 3, vec![m("M", vec![], vec![], &["f", "h"], &[])], vec![], vec![sv("S", &["n"])]),
+    ];
+    let mut names: BTreeSet<String> = BTreeSet::new();
+    for f in &cat {
+        let mut v = Vec::new();
+        file_names(f, &mut v);
+        names.extend(v);
+    }
+    for extra in ["p.M.N.E.V.x", "p.M.", ".p.M", "M", "p.S.m.m", "p.M.N.V", ""] {
+        names.insert(extra.to_string());
+    }
+    let fnames = ["a.proto", "b.proto", "c.proto", "d.proto", "e.proto"];
+    // every symbol query in its own stream (an error ends a stream), one stream for lists/files
+    let mut streams: Vec<Vec<Req>> = Vec::new();
+    streams.push(vec![Req { host: String::new(), k: ReqK::L(String::new()) }]);
+    for n in &names {
+        streams.push(vec![Req { host: String::new(), k: ReqK::Y(n.clone()) }]);
+    }
+    for n in fnames {
+        streams.push(vec![Req { host: String::new(), k: ReqK::F(n.to_string()) }]);
+    }
+    let mut out = Vec::new();
+    let k = cat.len();
+    let mk = |idx: &[usize], kinds: usize| -> String {
+        let regs: Vec<Reg> = idx
+            .iter()
+            .enumerate()
+            .map(|(j, i)| if (kinds >> j) & 1 == 0 { Reg::S(vec![cat[*i].clone()]) } else { Reg::E(vec![cat[*i].clone()]) })
+            .collect();
+        format!("exhaustive {}", render_case(&Case { inc: false, chosen: None, regs, streams: streams.clone(), own: None }))
+    };
+    for a in 0..k {
+        for kinds in 0..2 {
+            out.push(mk(&[a], kinds));
+        }
+        for b in 0..k {
+            for kinds in 0..4 {
+                out.push(mk(&[a, b], kinds));
+            }
+            for c in 0..k {
+                for kinds in 0..8 {
+                    out.push(mk(&[a, b, c], kinds));
+                }
+            }
+        }
+    }
+    out
 }
 
 pub fn generate(tier: &str, rng: &mut Rng) -> Vec<String> {
     let thorough = tier == "thorough";
     let mut out = corpus(rng);
     // structured: well-named forests
-    let n_struct = if thorough { 12000 } else { 900 };
+    let n_struct = if thorough { 30000 } else { 3000 };
     for _ in 0..n_struct {
-        out.push(random_case(rng, 0, 0, false));
+        out.push(random_case("structured", rng, 0, 0, false));
     }
     // malformed: missing names, undecodable sets
-    let n_mal = if thorough { 5000 } else { 400 };
+    let n_mal = if thorough { 9000 } else { 900 };
     for i in 0..n_mal {
-        let (pm, pb) = match i % 3 {
-            0 => (3, 0),
-            1 => (0, 25),
-            _ => (6, 15),
+        let (kind, pm, pb) = match i % 3 {
+            0 => ("malformed-names", 3, 0),
+            1 => ("malformed-bytes", 0, 25),
+            _ => ("malformed-mixed", 6, 15),
         };
-        out.push(random_case(rng, pm, pb, false));
+        out.push(random_case(kind, rng, pm, pb, false));
+    }
+    if thorough {
+        out.extend(exhaustive());
     }
     out
 }
